@@ -153,7 +153,7 @@ RULES = {
     "C04": "(a) fitenv: scripts of model answers explored depth-first with deviation bounding (default answer = 'much better, consistent slope'; 30 alternative answers + NaN/inf/Err; script depth 4 quick / 6 thorough, <= 2 / 3 deviations) for every solver configuration (patience {1,2,6,100} x tolerances {default, 1e-3, 0} x step bound {0.1,100} x P {1,2} x seq/par x with/without fault answers); every leaf is one complete real fit; (b) fitgrid: real models (Z1, Z2, Z4, O'Leary) from 7 starts incl. far and sign-flipped ones x 24 solver configurations x weights x noise x S x provenance/flavour/width; non-trivial = successful fits whose final state was fully checked",
     "C05": "complete product grid over the certified families (single decay+offset, two decays+offset with ratio 3/5/10, three decays with ratio 3/5, Gaussian+decay+offset): generating parameters x coefficients x N in {32,64,200} x weights {none, ones, ramp, 1/sigma} x noise {none, 1e-4, 1e-3, 1e-2 (where certified), alternating} x starts truth*(1+-d)^P, d in {0.02,0.05} x S in {1,2,3} x f64/f32 x hand/built x seq/par; every case is one real fit judged by reproduction, wrss <= wrss(truth) and reference-Jacobian stationarity; every case is distinct; non-trivial = fits judged completely",
     "C18": "every call sequence of length <= L (3 quick, 5 thorough; 3 for the 300-sample model) over observations(rows in {0,1,2,3,4} resp. {n-1,n,n+1,0} x cols in {0,1,2,3}), weights(len likewise, all-ones | varied), epsilon(+-1e-2, +-1e-8, 0[, 1e-300, -0; 0.05, -0.125 for the dense model]) for the constructors new/new_parallel/mrhs/mrhs_parallel x model output length {0,1,3,5,300} x {f64,f32}; the 5-sample model has a dense well conditioned 5x3 basis whose exposed initial coefficients/residuals are compared with the reference least-squares solution; for every accepted sequence the exposed residuals must equal W(Y - Phi C) for the exposed coefficients; the 3-sample model has an exactly diagonal basis diag(1, d2) with d2 = 1e-5 or 0.4375*eps so that the threshold in force is observable in the coefficients; every sequence is a distinct case. Value grid (consistent shapes only): constructor x {f64,f32} x output length {5,3} x observations (base | one of 14 special values [0, -0, -1, smallest subnormal, smallest normal, eps, 1e-18, 1e10, a value whose square overflows and its negative, MAX, +-inf, NaN] at every / the first / the middle / the last position of the last column) x weights (none | base | the same patterns) x threshold (none, 0, -1e-30, NaN; thorough also -0, subnormal, 1e-2, inf): build() must return Ok, report the initial parameters, and expose the initial state for finite moderate values",
-    "C17": "ops also include Break(slot,len) / Heal, which change which closure misbehaves DURING a history; environment = which of the 6 closures (3 basis functions, 3 derivatives) of a builder-made model returns a vector of wrong length (0, N-1, N+1, 2N), singly, in all pairs with cancelling totals, and two triples; the model has 4, 1 or 0 samples and three basis functions or a single one; within each environment ALL op sequences up to depth d (3 quick, 5 thorough for the 4-sample three-function model, 3 otherwise) over 19 ops (signed-zero parameter vectors included): eval, eval_partial_deriv(k) for k in {0,1,P,P+1,usize::MAX}, set_params(good a1|a2), set_params of length 0, P-1, P+1, 2P; every step is compared with the reference (last accepted parameters, exact expected matrices, expected error kind and payload); every sequence counts as distinct and non-trivial",
+    "C17": "ops also include Break(slot,len) / Heal, which change which closure misbehaves DURING a history; environment = which of the 6 closures (3 basis functions, 3 derivatives) of a builder-made model returns a vector of wrong length (0, 1, 2, N-1, N+1, 2N), singly, in all pairs with cancelling totals, and two triples; the model has 4, 1 or 0 samples and three basis functions or a single one; within each environment ALL op sequences up to depth d (3 quick, 5 thorough for the 4-sample three-function model, 3 otherwise) over 19 ops (signed-zero parameter vectors included): eval, eval_partial_deriv(k) for k in {0,1,P,P+1,usize::MAX}, set_params(good a1|a2), set_params of length 0, P-1, P+1, 2P; every step is compared with the reference (last accepted parameters, exact expected matrices, expected error kind and payload); every sequence counts as distinct and non-trivial",
     "C16": "case = one builder-made model with injectively tagged closures: model parameter list = every permutation of {a,b,c} and {a,b,c,d}; a function over every ordered subset (arity 1..4) with every order of supplying its derivatives, with an invariant function before/after/absent; pairs of functions over all pairs of ordered subsets; arity 5..10 on a 10-parameter model with every rotation, every transposition of the identity and of a scattered assignment, three derivative orders, three rotations of the model list; f32 and f64; oracle = exact (bitwise) comparison of eval, every eval_partial_deriv, params round-trip and parameters(); every model is distinct and non-trivial",
     "C01": "scenario = (family, N, provenance, f32|f64, seq|par, single|mrhs + observation columns, weight kind, threshold kind, alphabet of 4-9 parameter vectors incl. signed zeros, duplicates, sub-threshold steps, and decay constants scaled by 1e-17..1e17; families incl. a 4-parameter function declared in permuted order and incidence patterns with gaps; sizes up to 8200 samples); within a scenario ALL histories of set_params over the alphabet up to depth d are executed on the live problem (d=2 quick, 3 thorough; C10: 3/4), plus three long deterministic walks per scenario (alphabet cyclically x3, every entry repeated x4, ping-pong; 9n steps) beyond the depth bound; state = everything the LeastSquaresProblem interface exposes (bit patterns of params, residuals, coefficients, Jacobian); non-trivial = distinct reached states whose rank class is decidable (Full or Truncated) and on which the heavy oracle ran",
     "C02": "scenario = (family, N, provenance, f32|f64, seq|par, single|mrhs + observation columns, weight kind, threshold kind, alphabet of 4-9 parameter vectors incl. signed zeros, duplicates, sub-threshold steps, and decay constants scaled by 1e-17..1e17; families incl. a 4-parameter function declared in permuted order and incidence patterns with gaps; sizes up to 8200 samples); within a scenario ALL histories of set_params over the alphabet up to depth d are executed on the live problem (d=2 quick, 3 thorough; C10: 3/4), plus three long deterministic walks per scenario (alphabet cyclically x3, every entry repeated x4, ping-pong; 9n steps) beyond the depth bound; state = everything the LeastSquaresProblem interface exposes (bit patterns of params, residuals, coefficients, Jacobian); non-trivial = distinct reached states whose rank class is decidable (Full or Truncated) and on which the heavy oracle ran",
